@@ -137,6 +137,8 @@ def gen_synth(rng, count):
             cases.append("%s %s %s" % (rng.choice(["vscatter", "vgather"]), fmt_qlist(vals), fmt_calls(calls)))
         elif k < 0.60:
             cases.append(gen_banded(rng))
+        elif k < 0.72:
+            cases.append(gen_asmb(rng))
         else:
             cases.append(gen_asm(rng))
     return cases
@@ -170,7 +172,13 @@ def gen_banded(rng):
                                   fmt_calls(calls))
 
 
-def gen_asm(rng):
+def gen_asmb(rng):
+    """blocked variant of gen_asm: SparseMatrixBCSR<h,w>, block-valued local matrices"""
+    line = gen_asm(rng, blocked=rng.choice([(2, 2), (2, 3), (3, 2), (3, 3), (2, 1), (1, 3)]))
+    return line
+
+
+def gen_asm(rng, blocked=None):
     kind = rng.choice([1, 2])
     nT = rng.randint(1, 7)
     nS = nT if kind == 1 else rng.randint(1, 7)
@@ -201,8 +209,17 @@ def gen_asm(rng):
     elif r < 0.6:
         order = [rng.randrange(nc) for _ in range(rng.randint(0, nc + 2))]  # cells visited twice / not at all
     locs = []
+    bsz = 1 if blocked is None else blocked[0] * blocked[1]
     for c in range(nc):
-        locs.append((rand_alpha(rng), [rand_q(rng) for _ in range(len(tm[c]) * len(sm[c]))]))
+        locs.append((rand_alpha(rng), [rand_q(rng, small=blocked is not None) for _ in range(len(tm[c]) * len(sm[c]) * bsz)]))
+    if blocked is not None:
+        if not any(a and b for a, b in zip(tm, sm)):
+            tm[0] = [rng.randrange(nT)]
+            sm[0] = tm[0] if kind == 1 else [rng.randrange(nS)]
+            locs[0] = (locs[0][0], [rand_q(rng, small=True) for _ in range(bsz)])
+        return "asmb %d %d %d %d %d %d %s %s %s %s" % (
+            kind, nT, nS, blocked[0], blocked[1], nc, " ".join(fmt_list(l) for l in tm), " ".join(fmt_list(l) for l in sm),
+            fmt_list(order), " ".join("%s %s" % (fs(a), fmt_qlist(v)) for a, v in locs))
     return "asm %d %d %d %d %s %s %s %s" % (
         kind, nT, nS, nc, " ".join(fmt_list(l) for l in tm), " ".join(fmt_list(l) for l in sm), fmt_list(order),
         " ".join("%s %s" % (fs(a), fmt_qlist(v)) for a, v in locs))
@@ -375,6 +392,36 @@ def oracle_synth(case, out):
                     for j, cc in enumerate(cls):
                         exp[pos(r, cc)] += a * lv[i * len(cls) + j]
             return None if got == exp else "banded data %s, expected %s" % (got, exp)
+        if op == "asmb":
+            kind, nT, nS, bh, bw, nc = c.nat(), c.nat(), c.nat(), c.nat(), c.nat(), c.nat()
+            tm = [c.lst() for _ in range(nc)]
+            sm = [c.lst() for _ in range(nc)]
+            order = c.lst()
+            locs = [(c.q(), c.qlst()) for _ in range(nc)]
+            if kind == 1:
+                sm, nS = tm, nT
+            if is_abnormal(out):
+                return "blocked symbolic + numeric assembly ended with " + out
+            o = Tk(out)
+            o.expect("MB")
+            rows, cols = o.nat(), o.nat()
+            rp, ci = o.lst(), o.lst()
+            if (o.nat(), o.nat()) != (bh, bw):
+                return "block size changed"
+            vals = o.qlst()
+            e = check_pattern(rows, cols, rp, ci, len(vals) // (bh * bw), nT, nS, tm, sm)
+            if e:
+                return e
+            n = bh * bw
+            for comp in range(n):
+                exp = {}
+                for k in order:
+                    a, lv = locs[k]
+                    add_call(exp, (a, tm[k], sm[k], [lv[q * n + comp] for q in range(len(tm[k]) * len(sm[k]))]))
+                e = dense_eq(dense_of(rows, rp, ci, [vals[q * n + comp] for q in range(len(ci))]), exp)
+                if e:
+                    return "block component (%d,%d): %s" % (comp // bw, comp % bw, e)
+            return None
         if op == "asm":
             kind, nT, nS, nc = c.nat(), c.nat(), c.nat(), c.nat()
             tm = [c.lst() for _ in range(nc)]
@@ -428,6 +475,8 @@ def nontrivial_synth(case):
     t = case.split()
     if t[0] == "asm":
         return int(t[4]) >= 2
+    if t[0] == "asmb":
+        return int(t[6]) >= 2
     return len(t) > 12
 
 
@@ -811,6 +860,17 @@ def signature(case, out, why):
     if t[0] == "fe":
         g = parse_fe_case(case)
         return "fe:%s:%s" % (g["kind"], (why or "")[:40])
+    if t[0] == "trace":
+        if why and why.startswith("after clear()"):
+            # F5: TraceAssembler::clear() loops over the (just emptied) _facets instead of _facet_mask
+            return "c16-edge:F5"
+        return "trace:%s" % (why or "")[:50]
+    if t[0] == "ops":
+        g = parse_ops_case(case)
+        if g["part"] == "s9":
+            # F4: StrainRateTensorOperator<3,9>::eval assigns K(6,1) twice, K(6,2) stays uninitialised
+            return "c16-edge:F4"
+        return "ops:%s" % (why or "")[:50]
     if asm_zero_couplings(case) and is_abnormal(out):
         # F3: SparseMatrixCSR::ScatterAxpy on an entry-free matrix (row_ptr == nullptr)
         return "c16-edge:F3"
@@ -1136,7 +1196,317 @@ CORPUS_BG = [
 ]
 
 
+
+# ---------------------------------------------------------------------------------------------
+# operator sweep: every class of common_operators.hpp / common_functionals.hpp
+# ---------------------------------------------------------------------------------------------
+
+# stress-component layouts documented in StressDivergenceOperator / StrainRateTensorOperator
+STRESS_COMPS = {
+    (2, 4): [(0, 0), (0, 1), (1, 0), (1, 1)],
+    (2, 3): [(0, 0), (1, 1), (0, 1)],
+    (3, 9): [(a, b) for a in range(3) for b in range(3)],
+    (3, 6): [(0, 0), (1, 1), (2, 2), (0, 1), (1, 2), (0, 2)],
+}
+
+
+def ops_table(dim):
+    """class instance (section name) -> documented form.
+    scalar forms  ('bil', f)   : u^T A v = alpha * f(u, v)        (u: test/rows, v: trial/columns, Poly objects)
+    block  forms  ('blk', h, w, g): block (a, b) of the BCSR matrix = sum of coef * scalar section, g(a, b) -> [(coef, name)]
+    functionals   ('lin', f)   : u^T b = alpha * f(u)"""
+    def grad_dot(u, v):
+        r = Poly(dim)
+        for k in range(dim):
+            r = r + u.diff(k) * v.diff(k)
+        return r
+    t = {}
+    t["LAPL"] = ("bil", lambda u, v: grad_dot(u, v), "grad")           # LaplaceOperator
+    t["BELT"] = ("bil", lambda u, v: grad_dot(u, v), "grad")           # LaplaceBeltramiOperator (full-dimensional mesh)
+    t["ID"] = ("bil", lambda u, v: u * v, "val")                        # IdentityOperator
+    for d in range(dim):
+        t["TRD%d" % d] = ("bil", (lambda d: lambda u, v: u * v.diff(d))(d), "der")   # TrialDerivativeOperator(d)
+        t["TED%d" % d] = ("bil", (lambda d: lambda u, v: v * u.diff(d))(d), "der")   # TestDerivativeOperator(d)
+    for ir in range(dim):
+        for ic in range(dim):
+            # DivDivOperator(ir, ic): d_ic(trial) * d_ir(test)
+            t["DIV%d%d" % (ir, ic)] = ("bil", (lambda ir, ic: lambda u, v: u.diff(ir) * v.diff(ic))(ir, ic), "grad")
+            # DuDvOperator(ir, ic): [ir == ic] grad.grad + d_ir(trial) * d_ic(test)
+            t["DUDV%d%d" % (ir, ic)] = ("bil", (lambda ir, ic: lambda u, v:
+                                                (grad_dot(u, v) if ir == ic else Poly(dim)) + u.diff(ic) * v.diff(ir))(ir, ic), "grad")
+    t["LAPLB"] = ("blk", dim, dim, lambda a, b: [(F(1), "LAPL")] if a == b else [])
+    t["IDB"] = ("blk", dim, dim, lambda a, b: [(F(1), "ID")] if a == b else [])
+    t["DUDVB"] = ("blk", dim, dim, lambda a, b: [(F(1), "DUDV%d%d" % (a, b))])
+    t["GTRIAL"] = ("blk", dim, 1, lambda a, b: [(F(1), "TRD%d" % a)])
+    t["GTEST"] = ("blk", dim, 1, lambda a, b: [(F(1), "TED%d" % a)])
+    for nsc in (dim * (dim + 1) // 2, dim * dim):
+        comps = STRESS_COMPS[(dim, nsc)]
+        sym = nsc != dim * dim
+
+        def stress(a, s, comps=comps, sym=sym):
+            p, q = comps[s]
+            r = []
+            if p == a:
+                r.append((F(1), "TRD%d" % q))          # (div sigma)_a = sum_k d_k sigma_ak
+            elif sym and q == a:
+                r.append((F(1), "TRD%d" % p))
+            return r
+
+        def strain(s, a, comps=comps):
+            p, q = comps[s]                            # D(u)_pq = 1/2 (d_q u_p + d_p u_q)
+            r = []
+            if a == p:
+                r.append((F(1, 2), "TRD%d" % q))
+            if a == q:
+                r.append((F(1, 2), "TRD%d" % p))
+            return r
+        t["STRESS%d" % nsc] = ("blk", dim, nsc, stress)
+        t["STRAIN%d" % nsc] = ("blk", nsc, dim, strain)
+    t["FORCE"] = ("lin", lambda u, f: f * u)                                    # ForceFunctional
+    t["LAPF"] = ("lin", lambda u, f: Poly(dim, {tuple([0] * dim): -sum((f.diff(k).diff(k).t.get(tuple([0] * dim), F(0))
+                                                                            for k in range(dim)), F(0))}) * u)  # LaplaceFunctional
+    return t
+
+
+def gen_ops_case(rng, tier, k):
+    shapes = ["quad", "tria", "quad", "tria", "hexa"]
+    shape = shapes[k % len(shapes)]
+    dim, fam, _ = BG_SHAPES[shape]
+    space = "L1" if shape == "hexa" else ["L1", "L2"][(k // len(shapes)) % 2]
+    level = rng.randint(0, 1) if shape != "hexa" else (0 if tier == "quick" or rng.random() < 0.7 else 1)
+    if shape == "tria" and space == "L2":
+        level = 0
+    h = F(1, 2 ** level) if fam == "h" else F(1, 2 ** (level + 1))
+    moves = []
+    if rng.random() < 0.5 and not (shape == "hexa" and level == 1):
+        for _ in range(rng.randint(1, 2)):
+            moves.append((rng.randrange(64), [F(rng.randint(-5, 5), 40) * h for _ in range(dim)]))
+    kdeg = DEG[space]
+    has_inner = (level >= 1) or fam == "s"
+    moved = bool(moves) and has_inner
+    if fam == "h":
+        need = 2 * REFDEG_H[space] + ((dim - 1) if moved else 0)
+        cand = [r for r in RULES_H if r[1] >= need and r[0].startswith("newton")]
+        cand.sort(key=lambda r: r[1])
+        rule = cand[0][0] if rng.random() < 0.8 else rng.choice(cand)[0]
+    else:
+        rule = {1: "lauffer-degree-2", 2: "silvester-open:4"}[kdeg] if dim == 2 else "lauffer-degree-4"
+    cu = rand_poly_coefs(rng, dim, kdeg)
+    cv = rand_poly_coefs(rng, dim, kdeg)
+    # make sure neither polynomial vanishes on the boundary or lacks mixed derivatives
+    for c in (cu, cv):
+        for i in range(1, dim + 1):
+            if c[i] == 0:
+                c[i] = F(rng.choice([1, 2, -1, 3]))
+        c[0] = c[0] if c[0] != 0 else F(1)
+    mv = " ".join("%d %s" % (i, " ".join(fs(x) for x in dl)) for i, dl in moves)
+    part = "s9" if (shape == "hexa" and rng.random() < 0.3) else "main"
+    line = "ops %s %d %d %s %s %s %s %s %s %s" % (shape, level, len(moves), mv, space, rule, part,
+                                               fs(rand_alpha(rng) or F(1)), fmt_qlist(cu), fmt_qlist(cv))
+    return " ".join(line.split())
+
+
+def parse_ops_case(case):
+    c = Tk(case)
+    op, shape = c.tok(), c.tok()
+    dim, fam, _ = BG_SHAPES[shape]
+    level = c.nat()
+    nm = c.nat()
+    moves = [(c.nat(), [c.q() for _ in range(dim)]) for _ in range(nm)]
+    space, rule, part = c.tok(), c.tok(), c.tok()
+    alpha = c.q()
+    cu, cv = c.qlst(), c.qlst()
+    return dict(shape=shape, dim=dim, fam=fam, level=level, moves=moves, space=space, rule=rule, part=part, alpha=alpha,
+                cu=cu, cv=cv)
+
+
+def parse_ops_out(out):
+    o = Tk(out)
+    o.expect("FE")
+    dim, nv = o.nat(), o.nat()
+    verts = [[o.q() for _ in range(dim)] for _ in range(nv)]
+    nc, nvpc = o.nat(), o.nat()
+    cells = [[o.nat() for _ in range(nvpc)] for _ in range(nc)]
+    o.expect("T")
+    nd, n = o.nat(), o.nat()
+    tm = [o.lst() for _ in range(n)]
+    o.expect("P")
+    rp, ci = o.lst(), o.lst()
+    sec = {}
+    while o.peek() is not None:
+        name = o.tok()
+        sec[name] = o.qlst()
+    return dict(dim=dim, verts=verts, cells=cells, nd=nd, tm=tm, rp=rp, ci=ci, sec=sec)
+
+
+def oracle_ops(case, out):
+    try:
+        g = parse_ops_case(case)
+        if is_abnormal(out):
+            return "operator sweep on a valid configuration ended with " + out
+        r = parse_ops_out(out)
+        dim, fam, alpha, sec = g["dim"], g["fam"], g["alpha"], r["sec"]
+        if not mesh_valid(dim, fam, r["verts"], r["cells"]):
+            return None
+        table = ops_table(dim)
+        rp, ci, nd = r["rp"], r["ci"], r["nd"]
+        nnz = len(ci)
+        rowof = [i for i in range(nd) for _ in range(rp[i], rp[i + 1])]
+        u, v = sec["U"], sec["V"]
+        pu, pv = Poly.from_coefs(dim, g["cu"]), Poly.from_coefs(dim, g["cv"])
+        moved = cells_moved(dim, fam, g["level"], r["verts"])
+        nonaffine = moved and fam == "h" and dim > 1
+        kh = REFDEG_H[g["space"]] if fam == "h" else DEG[g["space"]]
+        rdeg = rule_degree(fam, dim, g["rule"])
+        exact_val = rdeg >= 2 * kh + ((dim - 1) if nonaffine else 0)
+        exact = {"val": exact_val, "der": exact_val, "grad": (not nonaffine) and rdeg >= 2 * kh}
+        names = [n for n in table if n in sec] if g["part"] != "main" else list(table)
+        if g["part"] == "main" and dim == 3:
+            names = [n for n in names if n != "STRAIN9"]       # judged in its own case (part s9)
+        for name in names:
+            if name not in sec:
+                return "class instance %s was not assembled" % name
+            ent = table[name]
+            vals = sec[name]
+            if g["part"] == "main":
+                jv = sec.get("J" + name)
+                if jv is None or jv != vals:
+                    return "%s: classic assembler and domain-assembler job differ" % name
+            if ent[0] == "bil":
+                if len(vals) != nnz:
+                    return "%s: wrong number of entries" % name
+                if exact[ent[2]]:
+                    got = sum(u[rowof[k]] * vals[k] * v[ci[k]] for k in range(nnz))
+                    exp = alpha * ent[1](pu, pv).integral_unit_cube()
+                    if got != exp:
+                        return "%s: u^T A v = %s, the documented form gives %s" % (name, got, exp)
+            elif ent[0] == "blk":
+                hh, ww, form = ent[1], ent[2], ent[3]
+                if len(vals) != nnz * hh * ww:
+                    return "%s: wrong number of entries" % name
+                for a in range(hh):
+                    for b in range(ww):
+                        comb = form(a, b)
+                        for k in range(nnz):
+                            exp = sum((cf * sec[nm][k] for cf, nm in comb), F(0))
+                            if vals[(k * hh + a) * ww + b] != exp:
+                                return "%s: block (%d,%d) of entry (%d,%d) is %s, the scalar operator(s) %s give %s" % (
+                                    name, a, b, rowof[k], ci[k], vals[(k * hh + a) * ww + b],
+                                    "+".join("%s*%s" % (cf, nm) for cf, nm in comb) or "0", exp)
+            else:
+                if len(vals) != nd:
+                    return "%s: wrong vector length" % name
+                if exact["val"]:
+                    got = sum(x * y for x, y in zip(u, vals))
+                    exp = alpha * ent[1](pu, pv).integral_unit_cube()
+                    if got != exp:
+                        return "%s: u^T b = %s, the documented form gives %s" % (name, got, exp)
+        if g["part"] == "main":
+            # vector-valued functionals: component c of the blocked vector = scalar functional of component c
+            fb, lb = sec["FORCEB"], sec["LAPFB"]
+            for nm2 in ("FORCEB", "LAPFB"):
+                if sec[nm2] != sec["J" + nm2]:
+                    return "%s: classic assembler and domain-assembler job differ" % nm2
+            if [fb[i * dim + 1] for i in range(nd)] != sec["FORCE"]:
+                return "FORCEB: component 1 of the blocked force vector differs from the scalar ForceFunctional"
+            if [lb[i * dim + 1] for i in range(nd)] != sec["LAPF"]:
+                return "LAPFB: component 1 of the blocked vector differs from the scalar LaplaceFunctional"
+            if exact["val"]:
+                comps = [pu, pv] + ([pu + pv] if dim == 3 else [])
+                lin_f, lin_l = table["FORCE"][1], table["LAPF"][1]
+                for c_ in range(dim):
+                    got = sum(u[i] * fb[i * dim + c_] for i in range(nd))
+                    if got != alpha * lin_f(pu, comps[c_]).integral_unit_cube():
+                        return "FORCEB: component %d: u^T b differs from the exact integral" % c_
+                    got = sum(u[i] * lb[i * dim + c_] for i in range(nd))
+                    if got != alpha * lin_l(pu, comps[c_]).integral_unit_cube():
+                        return "LAPFB: component %d: u^T b differs from the exact integral" % c_
+        return None
+    except (IndexError, ValueError, AssertionError, KeyError) as e:
+        return "unparsable implementation output (%s): %s" % (repr(e), out[:200])
+
+
+def describe_ops(case):
+    g = parse_ops_case(case)
+    return ["shape:" + g["shape"], "space:" + g["space"], "part:" + g["part"], "level:%d" % g["level"],
+            "moved" if g["moves"] else "unmoved", "classes:%d" % (len(ops_table(g["dim"])) + 2)]
+
+
+CORPUS_OPS = [
+    "ops quad 1 1 0 1/16 1/16 L2 newton-cotes-closed:5 main 1/1 6 1/1 1/1 1/2 1/1 1/1 1/1 6 3/1 1/1 2/1 1/1 0/1 -1/1",
+    "ops tria 0 0 L2 silvester-open:4 main 2/1 6 1/1 1/1 1/2 1/1 1/1 1/1 6 3/1 1/1 2/1 1/1 0/1 -1/1",
+    "ops hexa 0 0 L1 newton-cotes-closed:3 main 1/1 10 1/1 1/1 1/2 1/1 0/1 0/1 0/1 0/1 0/1 0/1 10 3/1 1/1 2/1 1/1 0/1 0/1 0/1 0/1 0/1 0/1",
+    # F4 (open, c16-edge:F4): StrainRateTensorOperator<3,9> writes K(6,1) twice and never K(6,2)
+    "ops hexa 0 0 L1 newton-cotes-closed:3 s9 1/1 10 1/1 1/1 1/2 1/1 0/1 0/1 0/1 0/1 0/1 0/1 10 3/1 1/1 2/1 1/1 0/1 0/1 0/1 0/1 0/1 0/1",
+]
+
+
+
+# ---------------------------------------------------------------------------------------------
+# trace assembler: facet selection state (add_facet / compile / clear)
+# ---------------------------------------------------------------------------------------------
+
+def gen_trace_case(rng):
+    level = rng.randint(0, 2)
+    nf = 2 * 2 ** level * (2 ** level + 1)
+    space = rng.choice(["L1", "L2"])
+    rule = "newton-cotes-closed:3" if space == "L1" else "newton-cotes-closed:5"
+    a = sorted(set(rng.randrange(nf) for _ in range(rng.randint(0, 3))))
+    b = sorted(set(rng.randrange(nf) for _ in range(rng.randint(0, 3))))
+    if rng.random() < 0.2:
+        b = sorted(set(a + b))      # B contains A: clear() makes no observable difference
+    return "trace %d %s %s %s %s" % (level, space, rule, fmt_list(a), fmt_list(b))
+
+
+def frac_sqrt(x):
+    import math
+    n, d = math.isqrt(x.numerator), math.isqrt(x.denominator)
+    assert n * n == x.numerator and d * d == x.denominator
+    return F(n, d)
+
+
+def oracle_trace(case, out):
+    try:
+        c = Tk(case)
+        c.tok()
+        level, space, rule = c.nat(), c.tok(), c.tok()
+        a, b = c.lst(), c.lst()
+        if is_abnormal(out):
+            return "trace assembly ended with " + out
+        o = Tk(out)
+        o.expect("TR")
+        t1, t2, f2, fa = o.q(), o.q(), o.q(), o.q()
+        nf = o.nat()
+        ln = []
+        for _ in range(nf):
+            l2 = o.q()
+            ln.append(frac_sqrt(l2) * o.nat())     # length times number of adjacent cells (the facet is visited per cell)
+
+        def tot(fs_):
+            return sum((ln[f % nf] for f in set(x % nf for x in fs_)), F(0))
+        if t1 != tot(a):
+            return "trace mass matrix on facets %s sums to %s, total facet length is %s" % (a, t1, tot(a))
+        if f2 != tot(b):
+            return "trace mass matrix on facets %s sums to %s, total facet length is %s" % (b, f2, tot(b))
+        if fa != tot(a + b):
+            return "trace mass matrix on facets %s sums to %s, total facet length is %s" % (a + b, fa, tot(a + b))
+        if t2 != tot(b):
+            return "after clear(): facets %s selected, the mass matrix sums to %s instead of %s (facets %s of the " \
+                   "previous selection are still assembled)" % (b, t2, tot(b), a)
+        return None
+    except (IndexError, ValueError, AssertionError, KeyError) as e:
+        return "unparsable implementation output (%s): %s" % (repr(e), out[:200])
+
+
+CORPUS_TRACE = [
+    # F5 (open, c16-edge:F5): TraceAssembler::clear() does not reset the facet mask
+    "trace 1 L1 newton-cotes-closed:3 1 0 1 1",
+    "trace 0 L1 newton-cotes-closed:3 0 1 2",
+]
+
+
 CORPUS_SYNTH = [
+    "asmb 1 2 2 2 2 2 2 0 1 1 1 2 0 1 1 1 2 0 1 1/1 16 1/1 0/1 0/1 1/1 1/1 2/1 0/1 1/1 1/1 1/1 0/1 1/1 1/1 3/1 0/1 1/1 2/1 4 1/1 5/1 0/1 1/1",
     # F3 (open, c16-edge:F3): no cell has both a test and a trial dof -> entry-free matrix -> null row_ptr dereferenced
     "asm 2 1 3 1 1 0 0 1 0 0/1 0",
     # F12 (fixed by a38ae1004): band entries in columns >= rows of a 2x3 matrix / rows > cols
@@ -1169,7 +1539,9 @@ def main(argv):
     hdir = os.path.join(vlib.VERIF, "harness", "c16")
     binary, err = vlib.build_harness("c16", os.path.join(hdir, "main.cpp"),
                                      extra_srcs=[os.path.join(hdir, "fe_%s.cpp" % s) for s in ("line", "quad", "tria", "hexa", "tetra")] +
-                                     [os.path.join(hdir, "bg_%s.cpp" % s) for s in ("quad", "tria", "hexa")])
+                                     [os.path.join(hdir, "bg_%s.cpp" % s) for s in ("quad", "tria", "hexa")] +
+                                     [os.path.join(hdir, "ops_%s.cpp" % s) for s in ("quad", "tria", "hexa")] +
+                                     [os.path.join(hdir, "trace_quad.cpp")])
     if binary is None:
         v = [{"property": PROP, "kind": "harness-build-failure", "detail": err, "failing_input": None,
               "broken": "harness c16 does not compile against the current tree"}]
@@ -1177,7 +1549,8 @@ def main(argv):
     quick = args.tier == "quick"
     if args.replay:
         rc = json.load(open(args.replay))["input"]
-        synth = [rc] if rc.split()[0] not in ("fe", "feasm", "bg", "bgsd") else []
+        synth = [rc] if rc.split()[0] not in ("fe", "feasm", "bg", "bgsd", "ops", "trace") else []
+        ops = [rc] if rc.split()[0] in ("ops", "trace") else []
         fe = [rc] if rc.split()[0] == "fe" else []
         feasm_extra = [rc] if rc.split()[0] == "feasm" else []
         bg = [rc] if rc.split()[0] == "bg" else []
@@ -1188,6 +1561,8 @@ def main(argv):
         synth = CORPUS_SYNTH + gen_synth(rng, 6000 if quick else 60000)
         fe = CORPUS_FE + [gen_fe_case(rng, args.tier) for _ in range(500 if quick else 4000)]
         feasm_extra = []
+        ops = CORPUS_OPS + [gen_ops_case(rng, args.tier, k) for k in range(50 if quick else 400)]
+        ops += CORPUS_TRACE + [gen_trace_case(rng) for _ in range(60 if quick else 600)]
     env = {"VERIF_CASE_TIMEOUT": "120"}
     # pre-run of the fe cases: the recorded cell contributions become the input of the model
     feasm = list(feasm_extra)
@@ -1225,6 +1600,11 @@ def main(argv):
         vlib.Stream("burgers", bg, [binary], None, oracle=oracle_bg,
                     nontrivial=lambda c: parse_bg_case(c)["level"] >= 1 or parse_bg_case(c)["fam"] == "s",
                     describe=describe_bg, signature=signature, env=env),
+        vlib.Stream("operators", ops, [binary], None,
+                    oracle=lambda c, o: oracle_trace(c, o) if c.startswith("trace") else oracle_ops(c, o),
+                    nontrivial=lambda c: True,
+                    describe=lambda c: ["op:trace"] if c.startswith("trace") else describe_ops(c),
+                    signature=signature, env=env),
         vlib.Stream("burgers-model", bgsd, [binary], vlib.driver_cmd(PROP), oracle=oracle_bgsd,
                     nontrivial=lambda c: True, describe=lambda c: ["shape:" + c.split()[1]], signature=signature, env=env),
     ]
@@ -1237,7 +1617,11 @@ def main(argv):
             "burgers: classic BurgersAssembler vs BurgersBlocked/ScalarMatrixAssemblyJob (all cells, sum of one-cell runs, "
             "permuted cell order, per-cell local_delta and SD part) on quad/tria/hexa, L1/L2, BCSR<dim,dim> and scalar CSR, "
             "all term combinations, constant / polynomial / stagnation-at-a-cell-centre fields, fields zeroed on whole "
-            "cells; burgers-model: the task's local_delta sequence vs the Lean model; non-trivial = >= 2 cells")
+            "cells; burgers-model: the task's local_delta sequence vs the Lean model; non-trivial = >= 2 cells. "
+            "operators: every class of common_operators.hpp / common_functionals.hpp per case (table ops_table: class -> "
+            "documented form), u^T A v against the exact integral with polynomials not vanishing on the boundary for all "
+            "(ir,ic), every block of every blocked operator entry by entry against the scalar operators, classic vs job; "
+            "trace assembler facet selection incl. clear()")
     rc = vlib.run_pipeline(PROP, args.tier, args.seed, lean, streams, t0, assumptions=[
         "Index modelled as unbounded Nat (no 64-bit overflow at the sizes FEAT can allocate)",
         "reading a never written _col_ptr slot (coupling outside the pattern, first touch) is undefined behaviour: "
